@@ -6,9 +6,10 @@
    integers scaled by [scale L]; INVALID is modelled by [None].
 
    NOT covered by a theorem here (S/K only, see harness/c02.py):
-   * that the plaquette list produced by the sweep satisfies [plaq_list_ok] for EVERY lattice (this is
-     C01's sweep_partition / walk_consistent, in progress in Proofs/LatticeFacts.v); here it is a
-     hypothesis, shown satisfiable by the Examples, and evaluated on every generated lattice by the harness;
+   * (now PROVED, see C02_sweep_satisfies_table_hypotheses at the end: the plaquette list produced by the
+     sweep satisfies [plaq_list_ok] for EVERY well-formed lattice without self-loops — from C01's
+     Proofs/LatticeFacts.v via Proofs/PlaqListOk.v — so the table theorems below hold unconditionally
+     for the real plaquette list; the harness still evaluates the boolean on every generated lattice);
    * "clockwise_about is the table row in reverse cyclic order" is proved at vertices in generic position
      ([generic_at]: no self-loop, no zero vector, no two edges in the same direction); elsewhere only
      "same edge set, sorted for its own exact comparator";
@@ -18,6 +19,7 @@
 From Coq Require Import List ZArith Bool Arith Permutation Sorted.
 From Koala Require Import Model.Lattice Model.TableSpec Model.Cache Model.Queries.
 From Koala Require Import Proofs.TablesFacts Proofs.SortFacts Proofs.PlaqTablesFacts Proofs.CacheFacts Proofs.QueriesFacts Proofs.CyclicFacts Proofs.SweepShapeFacts.
+From Koala Require Import Proofs.LatticeFacts Proofs.PlaqListOk.
 Import ListNotations.
 
 (* ---- clause: "for every vertex the incident-edge list is complete and in clockwise cyclic order
@@ -273,3 +275,19 @@ Proof.
   - eexists. split. vm_compute. reflexivity. vm_compute. repeat split; reflexivity.
   - eexists. split. vm_compute. reflexivity. vm_compute. repeat split; reflexivity.
 Qed.
+
+(* the hypotheses [darts_disjoint], [plaq_walk_ok], [plaq_list_ok] of the plaquette-table theorems above hold
+   for the plaquette list the sweep really returns, for every well-formed lattice without self-loops of any
+   size (C01), and filling the vertex table never fails *)
+Theorem C02_sweep_satisfies_table_hypotheses : forall L ps,
+  good L -> find_all_plaquettes L = Some ps -> plaq_list_ok L ps = true.
+Proof. exact sweep_plaq_list_ok. Qed.
+Print Assumptions C02_sweep_satisfies_table_hypotheses.
+
+Theorem C02_tables_total : forall L,
+  good L ->
+  exists ps, find_all_plaquettes L = Some ps /\ plaq_list_ok L ps = true /\
+             darts_disjoint ps = true /\ forallb (plaq_walk_ok L) ps = true /\
+             exists t, vertices_plaquettes L ps = Some t.
+Proof. exact sweep_tables_total. Qed.
+Print Assumptions C02_tables_total.
